@@ -208,8 +208,50 @@ Definition mrun : list mcase -> list (N * N * N) :=
   run_cases mc_id (fun c => mobs_eqb (mmodel (mc_in c)) (mc_obs c)) (fun c => mspec_ok (mc_in c) (mc_obs c))
             (fun _ => 0%N).
 
-(* both kinds of case in one list *)
-Inductive xcase := XS (c : case) | XM (c : mcase).
+(* ===================== one signature, verified at a given time ===================== *)
+
+(* notation.Verify / notation.VerifyBlob of the ONE signature of C07_Model.model with the clock
+   as an input: processSignature checks the expiry after authenticity and before anything that
+   depends on the payload; the argument checks of VerifyBlob (code 4) and the trust decision
+   (code 1) come before it *)
+Definition verify_at (vnow : Z) (i : input) (e : envelope descr) : vres :=
+  let v := verify descr dec_descr true i e in
+  if (v_code v =? 4)%N || (v_code v =? 1)%N then v
+  else if expired vnow e then vfail 6 None
+  else v.
+
+Definition model_at (vnow : Z) (i : input) : obs :=
+  let s := csign i in
+  match r_env descr s with
+  | None => mk_obs (r_err descr s) (r_shash descr s) (r_plugsig descr s) (r_plugenv descr s) None 7 None None None
+  | Some e =>
+      let v := verify_at vnow i e in
+      mk_obs (r_err descr s) (r_shash descr s) (r_plugsig descr s) (r_plugenv descr s)
+             (Some (view descr dec_descr (fun _ => ["targetArtifact"]) present_keys e))
+             (v_code v) (v_hash v) (v_ret v) (v_meta v)
+  end.
+
+(* when Verify runs, the signature has expired (expiry = signing time in seconds + duration) *)
+Definition input_expired (vnow : Z) (i : input) : bool :=
+  negb (i_dur i =? 0)%Z && negb (vnow <? (i_now i / second + i_dur i / second) * second)%Z.
+
+(* the oracle: before the expiry it is the oracle of C07_Model; after it a signature of a legal
+   input still has to be produced, and must not verify *)
+Definition tspec_ok (vnow : Z) (i : input) (o : obs) : bool :=
+  if negb (input_expired vnow i) then spec_ok i o
+  else if negb (wf i) then true
+  else (o_sign o =? 0)%N && negb (o_verify o =? 0)%N
+       && match o_ret o with None => true | Some _ => false end
+       && match o_meta o with None => true | Some _ => false end.
+
+Record tcase := mk_tcase { tc_id : N; tc_in : input; tc_vnow : Z; tc_obs : obs }.
+
+Definition trun : list tcase -> list (N * N * N) :=
+  run_cases tc_id (fun c => obs_eqb (model_at (tc_vnow c) (tc_in c)) (tc_obs c))
+            (fun c => tspec_ok (tc_vnow c) (tc_in c) (tc_obs c)) (fun _ => 0%N).
+
+(* all kinds of case in one list *)
+Inductive xcase := XS (c : case) | XM (c : mcase) | XT (c : tcase).
 
 Definition xrun (cs : list xcase) : list (N * N * N) :=
-  flat_map (fun x => match x with XS c => run [c] | XM c => mrun [c] end) cs.
+  flat_map (fun x => match x with XS c => run [c] | XM c => mrun [c] | XT c => trun [c] end) cs.
